@@ -10,6 +10,7 @@ import (
 	"errors"
 	"fmt"
 	"strings"
+	"sync"
 	"sync/atomic"
 	"time"
 
@@ -111,6 +112,73 @@ func tail(l []devsim.Event, n int) []devsim.Event {
 
 // Run drives the real library through the session and judges every call.
 func Run(s Sess) mon.Result {
+	if len(s.Group) > 0 {
+		return runGroup(s)
+	}
+	return run(s, nil)
+}
+
+// runGroup: several driver objects in this one process over level sets with identical names and
+// patterns but different trees, one after the other or alive at the same time; each has its own
+// device and is judged against its own tree.
+func runGroup(g Sess) mon.Result {
+	res := make([]mon.Result, len(g.Group))
+	if g.GroupMode == "concurrent" {
+		var opened, done sync.WaitGroup
+		opened.Add(len(g.Group))
+		for i := range g.Group {
+			done.Add(1)
+			go func(i int) {
+				defer done.Done()
+				defer func() {
+					if x := recover(); x != nil {
+						res[i] = mon.Result{Verdict: mon.Violated, Key: "c04/harness:panic-in-group-member", Detail: fmt.Sprint(x)}
+					}
+				}()
+				var once sync.Once
+				arrive := func() { once.Do(opened.Done) }
+				defer arrive()
+				// every driver object exists and is open before any of them is used
+				res[i] = run(g.Group[i], func() { arrive(); opened.Wait() })
+			}(i)
+		}
+		done.Wait()
+	} else {
+		for i := range g.Group {
+			res[i] = run(g.Group[i], nil)
+		}
+	}
+	out := mon.Result{Verdict: mon.Held, Obs: map[string]int64{"shape_groups": 1, "shape_group_drivers": int64(len(g.Group))}}
+	if g.GroupMode == "concurrent" {
+		out.Obs["shape_groups_alive_at_the_same_time"] = 1
+	}
+	tags := map[string]bool{"group-mode=" + g.GroupMode: true, "group-shapes=" + g.Shape: true}
+	for i, r := range res {
+		for k, v := range r.Obs {
+			out.Obs[k] += v
+		}
+		for _, t := range r.Tags {
+			tags[t] = true
+		}
+		out.NonTrivial = out.NonTrivial || r.NonTrivial
+		if out.Sample == nil {
+			out.Sample = r.Sample
+		}
+		switch {
+		case r.Verdict == mon.Violated && out.Verdict != mon.Violated:
+			out.Verdict, out.Key, out.Events = mon.Violated, r.Key, r.Events
+			out.Detail = fmt.Sprintf("driver %d of %d (%s, same level names and patterns, different trees): %s", i+1, len(res), g.GroupMode, r.Detail)
+		case r.Verdict == mon.Inconclusive && out.Verdict == mon.Held:
+			out.Verdict, out.Detail = mon.Inconclusive, r.Detail
+		}
+	}
+	for t := range tags {
+		out.Tags = append(out.Tags, t)
+	}
+	return out
+}
+
+func run(s Sess, afterOpen func()) mon.Result {
 	t0 := time.Now()
 	n := len(s.Levels)
 	idx := map[string]int{}
@@ -225,6 +293,9 @@ func Run(s Sess) mon.Result {
 	if err == nil {
 		err = nd.Open()
 	}
+	if afterOpen != nil {
+		afterOpen()
+	}
 	if err != nil {
 		return mon.Result{Verdict: mon.Violated, Key: "c04/open-failed", Detail: err.Error()}
 	}
@@ -287,6 +358,7 @@ func Run(s Sess) mon.Result {
 	// unsynced: a payload moved the device since the library last read a prompt for privilege purposes
 	unsynced := false
 	witness := ""
+	reparented := false
 
 	for oi, op := range s.Ops {
 		before := snapshot()
@@ -301,6 +373,18 @@ func Run(s Sess) mon.Result {
 		}
 		if before.state != before.mode {
 			return bad("c04/harness:device-not-at-prompt", "device state %q before the call", before.state)
+		}
+		if op.Kind == "reparent" {
+			// the platform definition changes at run time: the device now has the level under another parent,
+			// the user edits the driver's level and calls UpdatePrivileges (the documented way)
+			conn.Do(func() { s.Levels[op.Level].Parent = op.NewParent })
+			nd.PrivilegeLevels[s.Levels[op.Level].Name].PreviousPriv = s.Levels[op.NewParent].Name
+			nd.UpdatePrivileges()
+			obs["reparent_updates"]++
+			obs["ops_after_reparent"] += int64(len(s.Ops) - oi - 1)
+			reparented = true
+			tag("op=reparent+UpdatePrivileges")
+			continue
 		}
 
 		// which level must the call go to, and which lines does it deliver there?
@@ -605,6 +689,18 @@ func Run(s Sess) mon.Result {
 			nontrivial = true
 			obs["nontrivial_ops"]++
 		}
+		// how often the path in this driver's own tree differs from the path between the same labels in a tree
+		// another driver object of this process uses (or this driver used before UpdatePrivileges)
+		if len(s.AltParents) > 0 && (s.Kind != "reparent" || reparented) {
+			for _, alt := range s.AltParents {
+				au, ad := treePath(alt, from, target)
+				if fmt.Sprint(au, ad) != fmt.Sprint(up, down) {
+					obs["ops_whose_path_differs_in_other_tree_with_same_labels"]++
+					nontrivial = true
+					break
+				}
+			}
+		}
 		tag("path=up%d-down%d", len(up), len(down))
 		if asked > 0 {
 			tag("auth-steps=%d", asked)
@@ -657,6 +753,8 @@ func describe(s *Sess, op Op) string {
 		lvl = "no level given"
 	}
 	switch op.Kind {
+	case "reparent":
+		return fmt.Sprintf("re-parent %q under %q + UpdatePrivileges()", s.Levels[op.Level].Name, s.Levels[op.NewParent].Name)
 	case "acquire":
 		return "AcquirePriv(" + lvl + ")"
 	case "command":
@@ -699,7 +797,9 @@ func init() {
 			"(mode changes) but holds its reaction back until the call (run with a 500 ms operation timeout) has failed; the reaction is then released and drained, and 2-4 more calls follow, SendCommand(s) first, " +
 			"judged by the usual oracle from the device's true mode. Payload-moves family (40 quick / 400 thorough): random sequences in which the payload of SendConfig(s)/SendInteractive/SendCommand(s) contains valid transition commands " +
 			"(the level's own de-escalate, a child's escalate on a non-asking edge), so the device legitimately changes mode behind the cached level; the reference tracks the true mode through payload lines; " +
-			"the following call targets the level the driver still believes in with probability 0.6. Non-trivial = the case contains a judged call after a payload-induced move, or a call whose tree path has >=2 steps, or that crosses an edge on which the device asked for the secret, or a hop whose reaction was really held back, or a SendCommand(s) call (the operations that consult the cached level) " +
+			"the following call targets the level the driver still believes in with probability 0.6. Same-labels-different-shape family (30 quick / 300 thorough): 2-3 driver objects in ONE process over level sets with identical names and patterns but different trees " +
+			"(re-parented leaf, swapped labels, chain vs star), each with its own device, run one after the other or alive at the same time, each judged against its own tree; and (20 / 200) single sessions that re-parent a level " +
+			"(device and driver level definition) and call UpdatePrivileges mid-session. Non-trivial = a call whose path differs from the path between the same labels in the other tree, or a judged call after a payload-induced move, or a call whose tree path has >=2 steps, or that crosses an edge on which the device asked for the secret, or a hop whose reaction was really held back, or a SendCommand(s) call (the operations that consult the cached level) " +
 			"issued while the cached level differs from the device's mode. Distinct = distinct descriptor hash.",
 		Assumptions: []string{
 			"the device is the causal devsim.CLI model: echo, newline, output, prompt; a transition command is honoured only in the mode it belongs to, anything else prints an error line and changes nothing; workload commands never change the mode",
